@@ -138,6 +138,7 @@ func genC13(t *rapid.T) C13Case {
 	}
 	hostileNames(t, tree, u)
 	operatorLikeNames(t, tree, u)
+	unicodeNames(t, tree, u)
 	c.U, c.Tree = *u, tree
 	if Thorough() {
 		for mask := 0; mask < 16; mask++ {
